@@ -166,3 +166,33 @@ def guarded(pid):
                 return ("%s/unexpected-result-structure:%s" % (pid, type(e).__name__), "%s: %s at %s" % (type(e).__name__, str(e)[:150], where))
         return w
     return deco
+
+
+# ---------------------------------------------------------------------------------------------------------------
+# refusals in a child interpreter started with other flags (python -O strips assert statements: a refusal that is an
+# assert is no refusal there)
+
+_CHILD = r"""
+import sys, json
+import blackbird
+out = []
+for t in json.load(sys.stdin):
+    try:
+        blackbird.loads(t)
+        out.append("ok")
+    except Exception as e:
+        out.append("exc:" + type(e).__name__)
+print(json.dumps(out))
+"""
+
+
+def loads_in_child(task):
+    """(texts, flags) -> list of 'ok' | 'exc:<Type>' as a child interpreter started with `flags` sees them"""
+    import json
+    import subprocess
+    import sys
+    texts, flags = task
+    r = subprocess.run([sys.executable] + list(flags) + ["-W", "ignore", "-c", _CHILD], input=json.dumps(texts), capture_output=True, text=True)
+    if r.returncode != 0:
+        raise RuntimeError("child interpreter %r failed: %s" % (flags, r.stderr[-300:]))
+    return json.loads(r.stdout.strip().split("\n")[-1])
